@@ -9,7 +9,6 @@ import (
 	"go/ast"
 	"go/token"
 	"sort"
-
 )
 
 func init() { registerTable("C20Tables", genC20Tables) }
